@@ -496,7 +496,14 @@ static void qr_systems(const Args &a) {
 		SchindelhauerTMCG *T = new SchindelhauerTMCG(40, 2, tb);
 		TMCG_Card *c = new TMCG_Card(2, tb), *cc = new TMCG_Card(2, tb), *vc = new TMCG_Card(2, tb), *vcc = new TMCG_Card(2, tb);
 		TMCG_CardSecret *cs = new TMCG_CardSecret(2, tb);
-		T->TMCG_CreateOpenCard(*c, *ring, 5); T->TMCG_CreateCardSecret(*cs, *ring, 0); T->TMCG_MaskCard(*c, *cc, *cs, *ring);
+		// key.y enters TMCG_VerifyCardSecret only through the non-residue branch (t = bar * y): the masked card is re-drawn until
+		// at least one entry of the prover's row is a non-residue (b = 1), otherwise the proof does not speak about y at all
+		for (int tries = 0; tries < 200; tries++) {
+			T->TMCG_CreateOpenCard(*c, *ring, 5); T->TMCG_CreateCardSecret(*cs, *ring, 0); T->TMCG_MaskCard(*c, *cc, *cs, *ring);
+			TMCG_CardSecret own(2, tb); T->TMCG_SelfCardSecret(*cc, own, *secA, 0);
+			bool uses_y = false; for (size_t w = 0; w < tb; w++) if (mpz_get_ui(&own.b[0][w]) & 1UL) uses_y = true;
+			if (uses_y) break;
+		}
 		*vc = *c; *vcc = *cc;
 		System *S = new System; S->name = "qr_maskcard"; S->interactive = true; S->p = *mA; S->q = *mA; S->tol = tolm;
 		S->prover = [=](std::istream &i, std::ostream &o) { T->TMCG_ProveMaskCard(*c, *cc, *cs, *ring, i, o); };
